@@ -6,18 +6,22 @@
 //! * never-early is exact: `Instant` is monotonic, the deadline handed to compio is known (or
 //!   bounded from below by `now_before + d`), the time stamp is taken *before* the poll that
 //!   returned Ready; no tolerance, no retry.
-//! * "completes at its first poll iff the model says so" is exact (a registered timer cannot
-//!   complete without a `wake()` and no `wake()` runs inside one pass of the replay future).
-//! * completion order for registered timers whose real deadlines are >= 2 ticks apart is exact
+//! * "completes at its first poll iff the model says so" is exact for sleeps and for a timeout's
+//!   own timer (a registered timer cannot complete without a `wake()` and no `wake()` runs inside
+//!   one pass of the replay future); for lazily created timers (inner future, tick) and for a
+//!   deadline fixed before creation (SleepEq) only the direction model => real is exact, because
+//!   `Wait`/`Busy` last at least, not exactly, one tick of real time.
+//! * completion order for registered timers whose real deadlines are >= 1 tick apart is exact
+//!   (compared with the model's order where the model separates them by >= 2 ticks)
 //!   (the later one needs a `wake()` at or after its deadline, which expires the earlier one too).
-//! * a timeout must yield Ok when the inner future's deadline is >= 2 ticks before its own: exact.
+//! * a timeout must yield Ok when the inner future's deadline is >= 1 tick before its own: exact.
 //! * nothing left behind: `Runtime::current_timeout()` is `None` after the trace: exact.
 //! * interval alignment: `(tick - start) % period == 0` on real `Instant`s: exact.
 //! * "always fires" is a liveness statement; in real time it can only be checked with a
 //!   tolerance: completion by deadline + SLACK (60 ms), and a hang watchdog of 3 s. A miss is
-//!   re-run (3 attempts) and reported only if it persists; this part is a check with tolerance,
-//!   not a proof. The same holds for "timeout yields Elapsed when its deadline is >= 2 ticks before
-//!   the inner one" (a runtime that is 2 ticks late legitimately lets the inner future win).
+//!   re-run (5 attempts, the last 3 one at a time) and reported only if it persists; this part is a check with tolerance,
+//!   not a proof. A timeout whose deadline precedes the inner one may legitimately yield Ok in
+//!   real time (a late runtime lets the inner future win); that is counted, not judged.
 use std::{
     future::Future,
     pin::Pin,
@@ -34,6 +38,7 @@ use crate::model::{self, Op, World};
 pub const RTICK: Duration = Duration::from_millis(3);
 pub const SLACK: Duration = Duration::from_millis(60);
 const HANG: Duration = Duration::from_secs(3);
+const ATTEMPTS: u32 = 5;
 const TICKS_PER_INTERVAL: u32 = 3;
 const PERIOD_TICKS: u32 = 2;
 
@@ -310,6 +315,8 @@ struct RSlot {
     created_pass: u32,
     first_poll: Option<(Instant, Instant)>,
     tick_no: u32,
+    /// deadline was fixed before this future's creation (SleepEq), not relative to `now`
+    abs_deadline: bool,
 }
 
 #[derive(Debug, Clone)]
@@ -322,6 +329,7 @@ struct RDone {
     t_after: Instant,
     pass: u32,
     created_pass: u32,
+    abs_deadline: bool,
     d_lo: Option<Instant>,
     d_hi: Option<Instant>,
     r_lo: Option<Instant>,
@@ -388,6 +396,7 @@ impl<'a> Replay<'a> {
             r_hi: r.1,
             val,
             created_pass: self.pass,
+            abs_deadline: false,
             first_poll: None,
             tick_no,
         });
@@ -418,7 +427,8 @@ impl<'a> Replay<'a> {
             }
             COp::SleepEq => {
                 let dl = self.last_sleep_deadline.expect("SleepEq enabled only after a sleep");
-                self.put(planned.unwrap(), RFut::Sleep(Box::pin(rtime::sleep_until(dl))), (Some(dl), Some(dl)), (None, None), 0, 0);
+                let j = self.put(planned.unwrap(), RFut::Sleep(Box::pin(rtime::sleep_until(dl))), (Some(dl), Some(dl)), (None, None), 0, 0);
+                self.slots[j].as_mut().unwrap().abs_deadline = true;
             }
             COp::Timeout(d, r) => {
                 let val = 7000 + planned.unwrap();
@@ -534,6 +544,7 @@ impl Future for Replay<'_> {
                     t_after: ta,
                     pass: me.pass,
                     created_pass: s.created_pass,
+                    abs_deadline: s.abs_deadline,
                     d_lo: s.d_lo,
                     d_hi: s.d_hi,
                     r_lo: s.r_lo,
@@ -565,6 +576,7 @@ impl Future for Replay<'_> {
                             t_after: ta,
                             pass: me.pass,
                             created_pass: s.created_pass,
+                            abs_deadline: false,
                             d_lo: None,
                             d_hi: None,
                             r_lo: None,
@@ -638,6 +650,8 @@ fn real_run(script: &[COp]) -> Result<RealRun, RealErr> {
 /// (key, detail, is_tolerance_based)
 type Finding = (String, String, bool);
 
+static MAX_LATE_US: std::sync::atomic::AtomicU64 = std::sync::atomic::AtomicU64::new(0);
+
 fn us(t: Instant, t0: Instant) -> i64 {
     if t >= t0 { (t - t0).as_micros() as i64 } else { -((t0 - t).as_micros() as i64) }
 }
@@ -709,24 +723,33 @@ fn compare(script: &[COp], m: &[MDone], r: &RealRun, rep: &Report) -> Vec<Findin
                 }
             }
         }
-        // exact: completes at its first poll iff the model says so
-        if immediate_real != md.immediate {
+        // exact: completes at its first poll iff the model says so. A sleep and a timeout's own
+        // timer register at creation with a deadline relative to the `now` of that moment, so "ready
+        // at the first poll" means "insert refused", whatever the timing. Between two script points
+        // at least as much real time passes as model time (`Wait`/`Busy` last at least one tick), so
+        // for a deadline fixed earlier (SleepEq) and for timers created lazily at the first poll
+        // (inner future, tick) only "model immediate => real immediate" is exact.
+        let both_ways = matches!(d.out, Outc::Ready | Outc::Elapsed) && md.out == d.out && !d.abs_deadline;
+        if (both_ways && immediate_real != md.immediate) || (md.out == d.out && md.immediate && !immediate_real) {
             f.push((
                 format!("real:conformance:first-poll-completion-differs:{}", d.kind),
-                format!("#{} ({}): model completes at first poll = {}, real = {} (real pass {}, created in pass {})", d.id, d.kind, md.immediate, immediate_real, d.pass, d.created_pass),
+                format!("#{} ({}, {:?}): model completes at first poll = {}, real = {} (real pass {}, created in pass {})", d.id, d.kind, d.out, md.immediate, immediate_real, d.pass, d.created_pass),
                 false,
             ));
         }
         // outcome kind
         if d.out != md.out {
             match (md.out, d.out) {
-                (Outc::Ok, Outc::Elapsed) if d.r_hi.unwrap() + RTICK * 2 <= d.d_lo.unwrap() => {
-                    f.push(("real:timeout:elapsed-although-inner-finished-first".into(), format!("#{}: inner deadline +{}us is >= 2 ticks before the timeout deadline +{}us, yet Elapsed", d.id, us(d.r_hi.unwrap(), t0), us(d.d_lo.unwrap(), t0)), false));
+                // exact (any positive margin would do; one tick is used): an Elapsed needs a wake() at
+                // or after the timeout's deadline, which expires the earlier inner timer as well, and
+                // the inner future is polled first
+                (Outc::Ok, Outc::Elapsed) if d.r_hi.unwrap() + RTICK <= d.d_lo.unwrap() => {
+                    f.push(("real:timeout:elapsed-although-inner-finished-first".into(), format!("#{}: inner deadline +{}us is >= 1 tick before the timeout deadline +{}us, yet Elapsed", d.id, us(d.r_hi.unwrap(), t0), us(d.d_lo.unwrap(), t0)), false));
                 }
-                (Outc::Elapsed, Outc::Ok) if d.d_hi.unwrap() + RTICK * 2 <= d.r_lo.unwrap() => {
-                    // legitimate only if the runtime was >= 2 ticks late: tolerance-based
-                    f.push(("real:always-fires:timeout-not-elapsed-2-ticks-after-deadline".into(), format!("#{}: deadline +{}us, inner ready only at +{}us, yet Ok at +{}us", d.id, us(d.d_hi.unwrap(), t0), us(d.r_lo.unwrap(), t0), us(d.t_after, t0)), true));
-                }
+                // the model (driver exactly on time) says Elapsed, the real run let the inner future win:
+                // legitimate whenever the runtime was late by (inner deadline - timeout deadline), which
+                // is far below the lateness tolerance; lateness itself is judged by the slack check below
+                (Outc::Elapsed, Outc::Ok) => rep.count("real_timeout_inner_won_because_runtime_was_late", 1),
                 _ => rep.count("real_timeout_outcome_within_race_window", 1),
             }
         }
@@ -741,13 +764,16 @@ fn compare(script: &[COp], m: &[MDone], r: &RealRun, rep: &Report) -> Vec<Findin
             _ => eff_hi,
         };
         if let Some(due) = due {
+            if d.t_after > due {
+                MAX_LATE_US.fetch_max((d.t_after - due).as_micros() as u64, Ordering::Relaxed);
+            }
             if d.t_after > due + SLACK {
                 f.push((format!("real:always-fires:{}-late-beyond-slack", d.kind), format!("#{} was due at +{}us but completed at +{}us (slack {:?})", d.id, us(due, t0), us(d.t_after, t0), SLACK), true));
             }
         }
     }
-    // exact: order of registered timers whose real deadlines are >= 2 ticks apart; and agreement
-    // with the model's order where the model separates them by >= 2 ticks
+    // exact: order of registered timers whose real deadlines are >= 1 tick apart; where the model
+    // separates the two by >= 2 ticks this is the comparison with the model's completion order
     let eff = |d: &RDone| -> (Instant, Instant) {
         match d.out {
             Outc::Ready | Outc::Elapsed => (d.d_lo.unwrap(), d.d_hi.unwrap()),
@@ -762,7 +788,8 @@ fn compare(script: &[COp], m: &[MDone], r: &RealRun, rep: &Report) -> Vec<Findin
             }
             let (Some(ma), Some(mb)) = (m.iter().find(|x| x.id == a.id), m.iter().find(|x| x.id == b.id)) else { continue };
             let b_registered = !(b.pass == b.created_pass && b.first_poll.0 == b.t_before);
-            let real_sep = eff(a).1 + RTICK * 2 <= eff(b).0;
+            // exact for any positive separation of the real deadlines; one tick is used
+            let real_sep = eff(a).1 + RTICK <= eff(b).0;
             let model_sep = ma.tick + 2 <= mb.tick;
             if real_sep && b_registered && a.created_pass <= b.pass {
                 if model_sep {
@@ -773,7 +800,7 @@ fn compare(script: &[COp], m: &[MDone], r: &RealRun, rep: &Report) -> Vec<Findin
                 if a.pass > b.pass {
                     f.push((
                         "real:order:earlier-deadline-completes-after-later-one".into(),
-                        format!("#{} (due +{}us) completed in pass {} after #{} (due +{}us, >= 2 ticks later) in pass {}", a.id, us(eff(a).1, t0), a.pass, b.id, us(eff(b).0, t0), b.pass),
+                        format!("#{} (due +{}us) completed in pass {} after #{} (due +{}us, >= 1 tick later) in pass {}", a.id, us(eff(a).1, t0), a.pass, b.id, us(eff(b).0, t0), b.pass),
                         false,
                     ));
                 }
@@ -877,22 +904,23 @@ pub fn run(report: &Report, tier: Tier) {
         Tier::Thorough => Space { len: 4, sleeps: vec![-1, 0, 1, 2, 3], timeouts: vec![(0, 1), (1, 3), (3, 1), (2, 2)] },
     };
     let all = scripts(&sp);
-    let threads = tier.pick(4usize, 8usize);
+    let threads = tier.pick(8usize, 8usize);
     report.extra(
         "conformance_bounds",
         json!({
             "script_length": sp.len, "sleep_deadlines_rel_ticks": sp.sleeps, "timeouts_deadline_inner": sp.timeouts,
             "other_ops": ["SleepEq (same Instant as the previous sleep)", "Tick (interval_at(now+1, 2 ticks), 3 ticks)", "DropOldest", "Wait (1 tick)", "Busy (1 tick, thread blocked)"],
             "real_tick_ms": RTICK.as_millis() as u64, "lateness_slack_ms": SLACK.as_millis() as u64, "hang_watchdog_ms": HANG.as_millis() as u64,
-            "attempts_for_tolerance_based_findings": 3, "parallel_runtimes": threads, "traces": all.len(),
-            "exact_checks": ["never early", "first-poll completion iff model", "order for real deadlines >= 2 ticks apart", "timeout Ok when inner >= 2 ticks earlier", "current_timeout() None afterwards", "interval alignment"],
-            "tolerance_checks": ["completion by deadline + slack", "no hang", "timeout Elapsed when deadline >= 2 ticks before inner"],
+            "attempts_for_tolerance_based_findings": ATTEMPTS, "parallel_runtimes": threads, "traces": all.len(),
+            "exact_checks": ["never early", "first-poll completion iff model", "same completion order as the model for deadlines >= 2 model ticks (>= 1 real tick) apart", "timeout Ok when inner deadline >= 1 tick earlier", "current_timeout() None afterwards", "interval alignment"],
+            "tolerance_checks": ["completion by deadline + slack", "no hang"],
         }),
     );
-    report.assume("real-time replay: only never-early, first-poll completion, order, residue and alignment are exact; 'always fires' is checked with a 60 ms slack and a 3 s hang watchdog and is therefore a liveness check with a tolerance (3 attempts before reporting)");
+    report.assume("real-time replay: only never-early, first-poll completion, order, residue and alignment are exact; 'always fires' is checked with a 60 ms slack and a 3 s hang watchdog and is therefore a liveness check with a tolerance (5 attempts, the last 3 serialized, before reporting)");
     report.must_reach("real_traces_validated");
     let t0 = Instant::now();
     let samples = Mutex::new(0usize);
+    let serial = Mutex::new(());
     vcore::par_for_each_n(&all, threads, |idx, script| {
         let m = match vcore::catch(|| model_run(script)) {
             Ok(Ok(m)) => m,
@@ -916,6 +944,9 @@ pub fn run(report: &Report, tier: Tier) {
         let mut attempt = 0;
         loop {
             attempt += 1;
+            // later attempts run one at a time, so that the check's own parallelism cannot be the
+            // cause of the lateness
+            let _serial = if attempt > 2 { Some(serial.lock().unwrap()) } else { None };
             let findings: Vec<Finding> = match real_run(script) {
                 Ok(r) => {
                     let f = compare(script, &m, &r, report);
@@ -943,10 +974,11 @@ pub fn run(report: &Report, tier: Tier) {
                 return;
             }
             let only_tolerance = findings.iter().all(|f| f.2);
-            if only_tolerance && attempt < 3 {
+            if only_tolerance && attempt < ATTEMPTS {
                 continue;
             }
-            for (key, detail, tol) in findings {
+            // a tolerance-based finding is reported only if it persisted through all attempts
+            for (key, detail, tol) in findings.into_iter().filter(|f| only_tolerance || !f.2) {
                 report.violation(Violation {
                     key,
                     what: format!("real trace {} (1 tick = {:?}{}): {detail}", script_text(script), RTICK, if tol { format!("; tolerance-based, reproduced in {attempt} attempts") } else { String::new() }),
@@ -956,7 +988,7 @@ pub fn run(report: &Report, tier: Tier) {
             return;
         }
     });
-    report.extra("conformance", json!({"traces": all.len(), "wall_s": t0.elapsed().as_secs_f64()}));
+    report.extra("conformance", json!({"traces": all.len(), "wall_s": t0.elapsed().as_secs_f64(), "max_observed_lateness_us_including_retried_attempts": MAX_LATE_US.load(Ordering::Relaxed)}));
     println!("C09 conformance: traces={} validated={} wall={:.1}s", all.len(), report.traces_validated.load(Ordering::Relaxed), t0.elapsed().as_secs_f64());
 }
 
@@ -980,7 +1012,7 @@ pub fn replay(r: &Value) -> i32 {
     };
     println!("  model: {m:?}");
     let mut bad = 0;
-    for attempt in 1..=3 {
+    for attempt in 1..=ATTEMPTS {
         match real_run(&script) {
             Ok(r) => {
                 println!("  attempt {attempt}: {}", trace_json(&script, &m, &r));
@@ -1009,8 +1041,8 @@ pub fn replay(r: &Value) -> i32 {
             Err(RealErr::Setup(e)) => vcore::machinery_error(&e),
         }
     }
-    if bad == 3 {
-        println!("replay: VIOLATION reproduced (tolerance-based, 3 of 3 attempts)");
+    if bad == ATTEMPTS {
+        println!("replay: VIOLATION reproduced (tolerance-based, all attempts)");
         1
     } else {
         println!("replay: trace ran without violation");
